@@ -336,6 +336,8 @@ def stretch_case(case):
     if not case["with_idle"] is False:
         pass
     suffix = case["suffix"]
+    suffix_arg = suffix
+    suffix = suffix or ""
 
     def fitting(params):
         out = []
@@ -354,7 +356,7 @@ def stretch_case(case):
     keyed = dict(base)
     if case.get("odd_keys"):
         keyed = {("k%d_" % i) + k.lower(): v for i, (k, v) in enumerate(base.items())}
-    st_, sg = guard(stretched_gates, keyed, suffix=suffix, what="stretched_gates")
+    st_, sg = guard(stretched_gates, keyed, suffix=suffix_arg, what="stretched_gates") if suffix_arg is not None or case["gate_seed"] % 2 else guard(stretched_gates, keyed, what="stretched_gates")
     if st_ == "err":
         raise Violation("stretched-gates-raised", f"{sg}\nnames {names}")
     arities = set()
@@ -422,7 +424,7 @@ def _stretch_gen(ch):
         "names": ch.sample(pool, ch.int(1, 6)),
         "gate_seed": ch.int(0, 10**6),
         "with_idle": ch.bool(),
-        "suffix": ch.pick(["_stretched", "_s", "X"]),
+        "suffix": ch.pick(["_stretched", "_s", "X", None]),  # None (the default): the stretched gates keep their parents' names
         "order": ch.pick(["as-built", "active-then-idle", "idle-then-active", "reversed"]),
         "arg_seed": ch.int(0, 10**6),
         "call_parents_first": ch.bool(),
